@@ -49,9 +49,12 @@ def scenarios(tier, seed):
         for period in PERIODS:
             for bp, qp in PRECS:
                 out.append(("interest-grid", pct, period, bp, qp))
-    for side in ("S", "B"):
+    for side in ("S", "B", "B2"):
         for sizes in itertools.product((1, 2, 3), repeat=2 if tier == "quick" else 3):
             out.append(("largest-first", side, sizes))
+        for n in (1, 2, 3):
+            out.append(("largest-first", side, (n,)))
+    out.append(("repay-retry",))
     return out
 
 
@@ -103,7 +106,10 @@ def _lf_run(side, sizes, price_k, auto, order=None):
     ls = lending.MarginLoans("USD", default_conditions=lending.MarginLoanConditions(
         interest_symbol="USD", interest_percentage=D(10), interest_period=10 * DAY, min_interest=D(0),
         margin_requirement=D(0)))
-    init = {"BTC": D(1)} if side == "S" else {"USD": D(100000)}
+    tight = side == "B2"  # buy filled below its estimate, quote balance exactly the reservation: leftover hold at close
+    if tight:
+        side = "B"
+    init = {"BTC": D(1)} if side == "S" else {"USD": D(100 * price_k) if tight else D(100000)}
     e = ex.Exchange(d, init, lending_strategy=ls, liquidity_strategy_factory=liquidity.InfiniteLiquidity)
     e.add_bar_source(bs.FifoQueueEventSource())
     e.set_symbol_precision("BTC", 0)
@@ -126,7 +132,7 @@ def _lf_run(side, sizes, price_k, auto, order=None):
         lids = [call(e.create_loan("BTC", D(n))).id for n in sizes]
         call(e.create_limit_order(S, P, D(sum(sizes)), D(100000)))  # locks all borrowed BTC
         call(e.create_market_order(B, P, D(price_k), auto_repay=auto))  # acquires price_k BTC
-        bar(2, 100)
+        bar(2, 90 if tight else 100)
     if not auto:
         for i in order:
             try:
@@ -143,6 +149,8 @@ def _lf_run(side, sizes, price_k, auto, order=None):
 def _largest_first(sc, res):
     _, side, sizes = sc
     ks = (40, 60, 110, 160, 220, 320) if side == "S" else (1, 2, 3, 4, 5, 6)
+    if side == "B2":
+        ks = (1, 2, 3)
     for k in ks:
         a = _lf_run(side, sizes, k, True)
         n = len(sizes)
@@ -167,7 +175,45 @@ def _largest_first(sc, res):
     return res
 
 
+def _repay_retry(res):
+    """A repayment that is refused (explicitly, or silently when an auto-repay order cannot afford it) and succeeds later:
+    what is finally recorded as paid must be what was debited, an open loan has paid nothing."""
+    from worlds import exch, exch_bfs
+    exch.install_deterministic_ids()
+    found = []
+    for period in (3, 10):
+        for isym in ("USD", "same"):
+            for init_usd in (200, 250):
+                cfg = dict(lend=dict(req="0.5", isym=isym, period=period, pct="10"), fee=None, liq=None,
+                           init=(("USD", init_usd),), bp=0, qp=2)
+                spend = ("ord", "mkt", "B", 0, "3", None, None, False, False)
+                sell = ("ord", "mkt", "S", 0, "3", None, None, False, False)
+                sell_ar = ("ord", "mkt", "S", 0, "1", None, None, False, True)
+                bar = ("bar", 0, 7)
+                hists = [
+                    [bar, ("loan", "USD", "100"), spend, bar, bar, ("repay", 0), sell, bar, ("repay", 0)],
+                    [bar, ("loan", "USD", "100"), spend, bar, ("repay", 0), bar, ("repay", 0), sell, bar, bar, ("repay", 0)],
+                    [bar, ("loan", "USD", "100"), ("loan", "USD", "100"), spend, bar, bar, sell_ar, bar, sell, bar, ("repay", 0), ("repay", 1)],
+                ]
+                for h in hists:
+                    exch_bfs.lasso(cfg, h, [], 0, [PROPERTY], res, lambda hh, b, cfg=cfg: found.append((cfg, hh, b)))
+                    # open loans never report paid interest
+                    w = exch.build(cfg, h[:6])
+                    for lo in exch.call(w.e.get_loans(is_open=True)):
+                        if any(lo.paid_interest.values()):
+                            found.append((cfg, h[:6], [(PROPERTY, "paid-interest", f"open loan reports paid interest {lo.paid_interest}")]))
+    res.nontrivial |= res.states
+    res.samples.append(dict(kind="repay-retry"))
+    for cfg, hist, bad in found:
+        for p, clause, detail in bad:
+            res.violation(f"{PROPERTY}:{clause}:repay-retry", f"{detail}; lending={cfg['lend']} history={hist}",
+                          dict(kind="interest-grid", cfg=_jcfg(cfg), history=hist), size=len(hist))
+    return res
+
+
 def run_scenario(sc, tier):
+    if sc[0] == "repay-retry":
+        return _repay_retry(Result())
     if sc[0] == "interest-grid":
         return _interest_grid(sc, Result())
     if sc[0] == "largest-first":
